@@ -141,6 +141,14 @@ fn judge(
         cx.violation("single-emit", "emit-count", format!("{} produced {} emits, expected {}", mac, macro_emits.len(), want_emits), trace);
         return;
     }
+    // a run for C02 judges the value field of the macro's line, nothing else - and before anything else can end the judgement
+    if let (Ok(e), "C02", Some(first)) = (&exp, cx.args.str("report-as", "C17").as_str(), macro_emits.first()) {
+        if let Some(Err(why)) = value_field_matches(e, &first.0) {
+            cx.violation("numeral", "macro-value-field", format!("{}: {}", mac, why), trace);
+            return;
+        }
+        cx.rep.obs("macro_value_fields_checked", 1);
+    }
     // differential: the explicit chain must have produced the same line in one emit
     if macro_emits.iter().map(|e| &e.0).collect::<Vec<_>>() != chain_emits.iter().map(|e| &e.0).collect::<Vec<_>>() {
         cx.violation("same-as-explicit-chain", "line-differs-from-chain", format!("{} sent {:?} but the explicit chain sent {:?}", mac, macro_emits.first().map(|e| clip(&e.0, 200)), chain_emits.first().map(|e| clip(&e.0, 200))), trace);
@@ -150,13 +158,6 @@ fn judge(
     if let Ok(e) = &exp {
         // how a line is formatted is not C17's business (macro and chain agree, that is all C17 says): the reference
         // formatter only counts here. A run for C02 judges the value field of the macro's line, nothing else.
-        if cx.args.str("report-as", "C17") == "C02" {
-            if let Some(Err(why)) = value_field_matches(e, &macro_emits[0].0) {
-                cx.violation("numeral", "macro-value-field", format!("{}: {}", mac, why), trace);
-                return;
-            }
-            cx.rep.obs("macro_value_fields_checked", 1);
-        }
         if matches_line(e, &macro_emits[0].0).is_ok() {
             cx.rep.obs("macro_lines_matched_reference", 1);
         } else {
